@@ -140,9 +140,19 @@ def generate(rng, n, tier="quick"):
             body = r.pick(["", " note ", "x}y", "-"])
             if r.chance(0.5):
                 # the long form may hold anything but `--}}` – commented-out tags, `}}`, braces
-                body = "--" + r.pick([" {{name}} is off ", " a }} b ", "{{#if x}}", " }}}} ", "{{!inner}}", " -- ", "\n {{> p}} \n"]) + "--"
+                body = "--" + r.pick([" {{name}} is off ", " a }} b ", "{{#if x}}", " }}}} ", "{{!inner}}", " -- ", "\n {{> p}} \n",
+                                      " <!-- {{name}} --> ", " a -- b }} c ", " -- }} x ", " --x}}y ", " --\n}} z ", "-- }}", " {{!-- x -- }} ",
+                                      " --var: 1; }} "]) + "--"
             tpl = "a" + quote(s) + "b{{!" + body + "}}c"
             exp = "a" + s + "bc"
+            if r.chance(0.35):
+                # text ending in whitespace, the comment, and DIRECTLY behind it a tag with a leading `~`: the `~` removes whitespace
+                # next to its own tag – there is none, the comment stands there – and the text in front of the comment is untouched
+                wsp = r.pick(["  ", " ", "\t", " \n ", "\n", ""])
+                nxt = r.pick(["{{~v}}", "{{~#if v}}y{{/if}}", "{{~w}}", "{{~{v}}}", "{{~&v}}"])
+                outn = {"{{~v}}": "V", "{{~#if v}}y{{/if}}": "y", "{{~w}}": "", "{{~{v}}}": "V", "{{~&v}}": "V"}[nxt]
+                tpl = "a" + quote(s) + "b" + wsp + "{{!" + body + "}}" + nxt + "c"
+                exp = "a" + s + "b" + wsp + outn + "c"
             if "\n" in s or "\r" in s:
                 # keep the comment's line free of the standalone rule: text 'b' precedes it on its line
                 pass
